@@ -993,6 +993,16 @@ class FuncAnalysis:
                     body_ = [st for st in cand.node.body if not (isinstance(st, ast.Expr) and isinstance(st.value, ast.Constant))]
                     if len(body_) == 1 and isinstance(body_[0], ast.Return) and body_[0].value is not None and len(cand.node.args.args) == 1:
                         key = ast.Lambda(args=cand.node.args, body=body_[0].value)
+            if isinstance(key, ast.Name):
+                # a name bound exactly once, at module level or in this function, to a key expression
+                scopes = [self.f.node.body, self.sm.modules[self.f.rel].body] if self.f.rel in self.sm.modules else [self.f.node.body]
+                for body_ in scopes:
+                    binds = [st for top in body_ for st in ([top] if body_ is not self.f.node.body else ast.walk(top)) if isinstance(st, (ast.Assign, ast.AnnAssign)) and st.value is not None and any(isinstance(t_, ast.Name) and t_.id == key.id for t_ in (st.targets if isinstance(st, ast.Assign) else [st.target]))]
+                    if len(binds) == 1 and isinstance(binds[0].value, (ast.Call, ast.Lambda)):
+                        key = binds[0].value
+                        break
+                    if binds:
+                        break
             if isinstance(key, ast.Call) and (dotted(key.func) or "").split(".")[-1] == "attrgetter" and len(key.args) == 1 and isinstance(key.args[0], ast.Constant) and isinstance(key.args[0].value, str) and "." not in key.args[0].value:
                 key = ast.Lambda(args=ast.arguments(posonlyargs=[], args=[ast.arg("x_")], kwonlyargs=[], kw_defaults=[], defaults=[]), body=ast.Attribute(ast.Name("x_", ast.Load()), key.args[0].value, ast.Load()))
             if isinstance(key, ast.Lambda) and len(key.args.args) == 1:
